@@ -388,9 +388,44 @@ def generate(ck):
         if pat not in cache[f]:
             stale.append("%s: %s" % (f, pat))
     text = "\n".join(L) + "\n"
+    # concrete failing rows for the per-family reflection lemmas (*_rows_in_range, *_rows_wf_all): when one of them stops
+    # holding on regenerated tables the check names the instruction whose emission reads out of bounds
+    row_failures = []
+    def at(t, i):
+        return t[i] if 0 <= i < len(t) else None
+    aenc, aidx = ta["inst_encoding"], ta["inst_encoding_data_index"]
+    for iid in range(len(aenc)):
+        if aenc[iid] == ca["encoding_base_ldst"]:
+            ei = aidx[iid]; alt = at(ta["ldst_u_alt_inst_id"], ei)
+            if at(ta["ldst_reg_type"], ei) is None:
+                row_failures.append(("a64 BaseLdSt", iid, "baseLdSt[%d] is out of bounds (%d rows)" % (ei, len(ta["ldst_reg_type"]))))
+            elif at(aidx, alt) is None:
+                row_failures.append(("a64 BaseLdSt", iid, "_inst_info_table[u_alt_inst_id = %d] is out of bounds" % alt))
+            elif at(ta["simm9_reg_type"], aidx[alt]) is None:
+                row_failures.append(("a64 BaseLdSt", iid, "baseRM_SImm9[%d] (row of the fallback instruction %d) is out of bounds" % (aidx[alt], alt)))
+            elif ta["simm9_imm_shift"][aidx[alt]] != 0 or ta["simm9_reg_type"][aidx[alt]] != ta["ldst_reg_type"][ei]:
+                row_failures.append(("a64 BaseLdSt", iid, "the ldur/stur fallback row %d does not match (imm_shift %d, reg_type %d vs %d): C14_a64_ldst_imm_offset_inst_spec no longer applies"
+                                     % (alt, ta["simm9_imm_shift"][aidx[alt]], ta["simm9_reg_type"][aidx[alt]], ta["ldst_reg_type"][ei])))
+        if aenc[iid] == ca["encoding_base_ldpstp"] and at(ta["ldpstp_reg_type"], aidx[iid]) is None:
+            row_failures.append(("a64 BaseLdpStp", iid, "baseLdpStp[%d] is out of bounds" % aidx[iid]))
+        if aenc[iid] == ca["encoding_simd_ldst"]:
+            ei = aidx[iid]; alt = at(ta["simdldst_u_alt_inst_id"], ei)
+            if alt is None or at(aidx, alt) is None or at(ta["simdldur_opcode"], aidx[alt]) is None:
+                row_failures.append(("a64 SimdLdSt", iid, "simdLdSt[%d] / its fallback row (u_alt_inst_id %s) is out of bounds" % (ei, alt)))
+    xenc = [r[3] for r in rx["x86_inst"]]; xmain = [r[0] for r in rx["x86_inst"]]
+    for iid in range(len(xenc)):
+        if xenc[iid] in (cx["encoding_x86_rot"], cx["encoding_x86_arith"]):
+            opc0 = at(tx["main_opcode_table"], xmain[iid])
+            if opc0 is None:
+                row_failures.append(("x86 Rot/Arith", iid, "main_opcode_table[%d] is out of bounds" % xmain[iid])); continue
+            for k in range(16):
+                opc = opc0 | tx["arith_by_size_mask"][k]
+                pp = (opc >> cx["pp_shift"]) & cx["pp_index_max"]; mm = (opc >> cx["mm_shift"]) & cx["mm_index_max"]
+                if at(tx["opcode_pp_table"], pp) is None or at(tx["opcode_mm_table"], mm) is None:
+                    row_failures.append(("x86 Rot/Arith", iid, "operand size class %d: opcode_pp_table[%d] / opcode_mm_table[%d] is out of bounds" % (k, pp, mm))); break
     info = {"sites": len(sites) + len(nsites), "a64_encoding_sites": n_enc_sites, "a64_encodings_unsupported": unsupported,
             "x86_rows": len(rx["x86_inst"]), "a64_rows": len(ra["a64_inst"]),
-            "a64_encodings_in_rows": len(by_enc), "a64_encodings_without_table_lookup": getattr(a64_encoding_tables, "no_table", []), "a64_const_index_sites": n_const, "x86_legacy_rows": len(legacy), "stale_site_transcriptions": stale, "a64_size_op_guarded": guarded, "a64_size_op_expression_recognised": size_op_recognised, "tables": sorted(list(tx) + list(ta))}
+            "a64_encodings_in_rows": len(by_enc), "a64_encodings_without_table_lookup": getattr(a64_encoding_tables, "no_table", []), "a64_const_index_sites": n_const, "x86_legacy_rows": len(legacy), "stale_site_transcriptions": stale, "row_failures": row_failures, "a64_size_op_guarded": guarded, "a64_size_op_expression_recognised": size_op_recognised, "tables": sorted(list(tx) + list(ta))}
     return text, info
 
 
